@@ -207,7 +207,7 @@ def tlc(module, cfg, workers=None, timeout=1800, heap="4g", extra=None, files=No
         raise Inconclusive("TLC failed on %s/%s (rc=%d):\n%s" % (module, cfg, p.returncode, res.raw_tail[-3000:]))
     log("TLC %s/%s: %d generated, %d distinct, %d lines, %.1fs%s" % (
         module, cfg, res.generated, res.distinct, len(res.lines), res.wall,
-        " VIOLATION " + res.violation if res.violation else ""))
+        " [tlc reports: " + res.violation + "]" if res.violation else ""))
     if not os.environ.get("VERIF_KEEP"):
         shutil.rmtree(d, ignore_errors=True)
     return res
